@@ -264,6 +264,11 @@ def descriptions(ctx):
             te = suds.transport.TransportError("reason text", status, io.BytesIO(b""))
             c4 = wsdlkit.client(w, faults=faults, transport=wsdlkit.RecordingTransport(reply=te))
             paths.append(("transport-error", lambda c4=c4: c4.service.f("x"), "reason text"))
+            if status not in (200, 202, 204, 500):
+                # (an error page that comes with the status is not the description)
+                te2 = suds.transport.TransportError("reason text", status, io.BytesIO(b"<html><body>error page</body></html>"))
+                c5 = wsdlkit.client(w, faults=faults, transport=wsdlkit.RecordingTransport(reply=te2))
+                paths.append(("transport-error/with-body", lambda c5=c5: c5.service.f("x"), "reason text"))
             for pname, fn, want in paths:
                 meta = {"stream": "descriptions", "status": status, "faults": faults, "path": pname}
                 ctx.case(common.canon(meta), True)
